@@ -1087,6 +1087,30 @@ pub fn exec(lineno: usize, l: &str) -> String {
                 let _ = write!(o, " {} {} {} {} {} {} {} {}", ord_code(c), pc, b(x == y), b(x != y), b(x < y), b(x <= y), b(x > y), b(x >= y));
             }
         },
+        // projection for C07 over ALL pairs: does cmp agree with what the property fixes (stronger = lower valid value is
+        // Greater; invalid below valid; two invalid ranks: Equal iff same value, antisymmetric), do ==, partial_cmp and the four
+        // operators agree with cmp?
+        "hrkey" => {
+            use std::cmp::Ordering::{Equal, Greater, Less};
+            let v = nums();
+            let inval = |a: u64| a == 0 || a > 7462;
+            let x = HandRank::from(v[0] as u16);
+            let y = HandRank::from(v[1] as u16);
+            let c = x.cmp(&y);
+            let spec_ok = match (inval(v[0]), inval(v[1])) {
+                (false, false) => c == v[1].cmp(&v[0]),
+                (true, false) => c == Less,
+                (false, true) => c == Greater,
+                (true, true) => (c == Equal) == (v[0] == v[1]) && y.cmp(&x) == c.reverse(),
+            };
+            let eq_ok = (x == y) == (v[0] == v[1]) && (x != y) == (v[0] != v[1]) && (c == Equal) == (x == y);
+            let ops_ok = x.partial_cmp(&y) == Some(c)
+                && (x < y) == (c == Less)
+                && (x <= y) == (c != Greater)
+                && (x > y) == (c == Greater)
+                && (x >= y) == (c != Less);
+            let _ = write!(o, " {} {} {}", b(spec_ok), b(eq_ok), b(ops_ok));
+        },
         "hrtri" => {
             use std::cmp::Ordering::{Equal, Greater};
             let v = nums();
